@@ -15,7 +15,7 @@ EXPLANATION = (
     "Processor::eval / Workspace::eval / wasm::process return Err on evaluation errors; (R5) PIPE-AGREE - run and "
     "oal_wasm::process call the same pipeline stages in the same order. Observed exit status, file contents, wording of "
     "diagnostics and document equality across front ends are not decided.")
-EXPLANATION += ' Further clauses: (R6) LOADER-TEXT; (R7) OPTION-PRECEDENCE - Config::{main,target,base} take the command-line option first, each from its own field; (R8) the server recomputes diagnostics from the current texts after every notification and publishes all of them (shared C15.R1/R2/R3/R6); (R9) LOCATION-FREE - implicit component names identify a module relative to the main module, so CLI, playground and two checkouts agree. (R10) LOCATORS (shared C10.R7). R8 also shares C15.R4.'
+EXPLANATION += " Further clauses: (R6) LOADER-TEXT; (R7) OPTION-PRECEDENCE - Config::{main,target,base} take the command-line option first, each from its own field; (R8) the server recomputes diagnostics from the current texts after every notification and publishes all of them (shared C15.R1/R2/R3/R6); (R9) LOCATION-FREE - implicit component names identify a module relative to the main module, so CLI, playground and two checkouts agree. (R10) LOCATORS (shared C10.R7). R8 also shares C15.R4. (R11) LOCATED - the module loader's own errors are handed to the front end's reporting function."
 TECHNIQUE = "static analysis: who-may-call over the call graph + MIR dominance / error-arm reachability"
 
 RAW_WRITERS = re.compile(r'^(std::fs::(write|remove_file|remove_dir|remove_dir_all|rename|copy|create_dir|create_dir_all|hard_link|set_permissions)'
@@ -480,7 +480,43 @@ def r9_location_free(c, facts):
             c.bad(R, 'digest-base-not-module-set-base', 'node_identifier hands NodeRef::digest a base that is not ModuleSet::base() (%s)' % sorted(nm))
 
 
+def r11_located(c, facts):
+    """an error raised by the module loader itself (import not found, import cycle, bad locator) carries a span; every
+    front end that loads modules hands it to its reporting function, as it does for parse, compile and evaluation errors"""
+    R = c.rule('C13.R11', 'LOCATED: an import error is reported with its location by every front end, not only printed as a message')
+    n = 0
+    for q, rep in (('oal_client::cli::Processor::load', 'Processor::report'), ('oal_client::lsp::Workspace::load', 'Workspace::log_compiler_error')):
+        fn = c.anchor(R, q)
+        fam = [fn] + list(facts.closures_of(fn))
+        n += 1
+        loads = any(P.call_blocks(g, 'module::load') for g in fam if g.mir)
+        reports = any(P.call_blocks(g, rep) for g in fam if g.mir)
+        if not loads:
+            c.bad(R, '%s:no-module-load' % q.split('::')[-2], '%s no longer calls module::load' % q)
+        elif reports:
+            c.ok(R, {'fn': q, 'import errors': 'handed to %s' % rep})
+        else:
+            c.bad(R, '%s::load:import-error-not-located' % q.split('::')[-2], '%s propagates an error of module::load without handing it to %s: a missing import or an import cycle is printed as a bare message, without the location the error carries' % (q, rep))
+    c.floor(R, 'front ends that load modules', n, 2)
+    # the server publishes a diagnostic whenever loading fails: every failure of module::load leaves a logged error -
+    # those of the loader's own I/O (an import that exists but cannot be read) included
+    wl = c.anchor(R, 'oal_client::lsp::Workspace::load')
+    silent = False
+    for g in [wl] + list(facts.closures_of(wl)):
+        if not g.mir or not P.call_blocks(g, 'Workspace::log_compiler_error'):
+            continue
+        logs = {b for b, _ in P.call_blocks(g, 'Workspace::log_compiler_error')} | {b for b, _ in P.call_blocks(g, 'Workspace::log_error')}
+        reach = g.reachable_from(0, avoid=logs)
+        if any(g.mir['blocks'][b]['term']['t'] == 'return' for b in reach):
+            silent = True
+    if silent:
+        c.bad(R, 'Workspace::load:failure-without-diagnostic', 'Workspace::load logs a loading failure only when it is a compiler error: when an import exists but cannot be read (a directory, invalid UTF-8) the CLI fails with "input/output error" while the server publishes no diagnostic')
+    else:
+        c.ok(R, {'Workspace::load': 'every failure of module::load is logged'})
+
+
 def run(c, facts):
+    c.run(r11_located, facts)
     c.run(r9_location_free, facts)
     c.run(r7_option_precedence, facts)
     import c15
